@@ -79,7 +79,7 @@ def prop(pid, explanation, decided, not_decided, rules, assumptions=None):
             decided.append('the necessary conditions of the scheduler core that this property presupposes (one runner at a time, token released and handed on, wakers and pool resume parked queues, '
                            'waiters notified, dead threads reaped, lock discipline, reviewed transition relation and effect order; every protocol action happens on every path that owes it '
                            '(MUST: must-pass-through obligations, e.g. a waker cannot return before looking at the state, a taken waker is woken, a created thread is registered); every waker that is '
-                           'polled with or left in a slot comes from the caller or is one of the crate\'s own, built for the queue it runs and the thread that parks (WP); every object the rules reason about per owner (a queue per Desync, a result slot per future, a buffer per pipe, a schedule and thread table '
+                           'polled with or left in a slot comes from the caller or is one of the crate\'s own, built for the queue it runs and the thread that parks, and a wrapper waker type forwards every wake it receives (WP); every object the rules reason about per owner (a queue per Desync, a result slot per future, a buffer per pipe, a schedule and thread table '
                            'per scheduler, a busy flag per thread, the id a queue is parked under) is made for that owner by its constructor, starts in the protocol\'s initial state and keeps its identity, the types of the protocol have the reviewed destructors (DROP-base), and the two ends of every hand-shake are one object (ID-fixed, ID-fresh, ID-same): group CORE in dsa/props.py)')
         if getattr(entry[0], '__name__', '') == 'tr_base':
             decided.append('the transition relation extracted from %s is the reviewed one: no transition added, none removed (TR-base; regression rule against dsa/tr_baseline.json)'
